@@ -108,7 +108,8 @@ def Env.set (env : Env) (f : String) (v : Val) : Env :=
 
 /-- codecs of the nested wire types (`types.SMB_STRING`, `FILETIME`, …): supplied by the C06 models -/
 structure Codecs where
-  enc : String → Tup → Outcome Bytes
+  /-- bytes of a nested value and the value as `Marshal` leaves it (Go encoders update lengths, formats, padding) -/
+  enc : String → Tup → Outcome (Bytes × Tup)
   dec : String → Bytes → Outcome (Tup × Nat)
   /-- effect of `SetBufferFormat k` on a nested value -/
   setFmt : Nat → Tup → Tup
@@ -163,7 +164,9 @@ def runMStmt (C : Codecs) (isAndX : Bool) (s : MState) : MStmt → Outcome MStat
     | _ => .err
   | .sub b f typ =>
     match s.env.get f with
-    | some (.t v) => do let bs ← C.enc typ v; pure (s.app b bs)
+    | some (.t v) => do
+      let (bs, v') ← C.enc typ v
+      pure { (s.app b bs) with env := s.env.set f (.t v') }
     | _ => .err
   | .setFmt f k =>
     match s.env.get f with
@@ -178,7 +181,8 @@ def runMStmt (C : Codecs) (isAndX : Bool) (s : MState) : MStmt → Outcome MStat
   | .forSub b f typ =>
     match s.env.get f with
     | some (.ts vs) => do
-      let bs ← vs.foldlM (fun acc v => do let x ← C.enc typ v; pure (acc ++ x)) []
+      -- `for _, x := range c.F`: x is a copy, so the encoders' updates do not reach the command
+      let bs ← vs.foldlM (fun acc v => do let (x, _) ← C.enc typ v; pure (acc ++ x)) []
       pure (s.app b bs)
     | _ => .err
   | .forInt b w e f =>
@@ -197,7 +201,9 @@ def runMStmt (C : Codecs) (isAndX : Bool) (s : MState) : MStmt → Outcome MStat
     if 2 * andxWords isAndX % 256 = k then runMStmts C isAndX s body else .ok s
   | .subHead f typ =>
     match s.env.get f with
-    | some (.t v) => do let bs ← C.enc typ v; pure { s with head := s.head ++ bs }
+    | some (.t v) => do
+      let (bs, v') ← C.enc typ v
+      pure { s with head := s.head ++ bs, env := s.env.set f (.t v') }
     | _ => .err
 def runMStmts (C : Codecs) (isAndX : Bool) (s : MState) : List MStmt → Outcome MState
   | [] => .ok s
@@ -226,6 +232,7 @@ inductive Step (α : Type)
   | ret
   | err
   | panic
+  | stuck      -- the environment lacks a field or holds a value of another kind: impossible in Go (static types)
   deriving Repr
 
 def UState.blk (s : UState) : Blk → Bytes
@@ -308,7 +315,7 @@ def runUStmt (C : Codecs) (s : UState) : UStmt → Step UState
   | .guard b e =>
     match evalExpr s e with
     | some n => if (s.blk b).length < s.offset + n then .err else .next s
-    | none => .panic
+    | none => .stuck
   | .readInt b w e f =>
     liftO (fun st bs => { st with env := st.env.set f (.n (intVal e bs)) }) s (slice (s.blk b) s.offset (s.offset + w))
   | .readQuad b w e f =>
@@ -318,7 +325,7 @@ def runUStmt (C : Codecs) (s : UState) : UStmt → Step UState
   | .readBytes b f n =>
     match evalExpr s n with
     | some k => liftO (fun st bs => { st with env := st.env.set f (.b bs) }) s (slice (s.blk b) s.offset (s.offset + k))
-    | none => .panic
+    | none => .stuck
   | .readRest b f =>
     liftO (fun st bs => { st with env := st.env.set f (.b bs) }) s (sliceFrom (s.blk b) s.offset)
   | .readArr b f n =>
@@ -340,12 +347,12 @@ def runUStmt (C : Codecs) (s : UState) : UStmt → Step UState
   | .advance e =>
     match evalExpr s e with
     | some n => .next { s with offset := s.offset + n }
-    | none => .panic
+    | none => .stuck
   | .advanceRead => .next { s with offset := s.offset + s.bytesRead }
   | .setPad e =>
     match evalExpr s e with
     | some n => .next { s with pad := n }
-    | none => .panic
+    | none => .stuck
   | .padRoundUp => .next { s with pad := if s.pad % 2 = 1 then s.pad + 1 else s.pad }
   | .padIfPOdd => .next { s with pad := if (s.P.length + 3) % 2 = 1 then 1 else s.pad }
   | .resliceD =>
@@ -355,7 +362,7 @@ def runUStmt (C : Codecs) (s : UState) : UStmt → Step UState
   | .makeInts f g =>
     match s.env.get g with
     | some (.n k) => .next { s with env := s.env.set f (.ns (List.replicate k 0)) }
-    | _ => .panic
+    | _ => .stuck
   | .forCountInt b w e f g =>
     match s.env.get g with
     | some (.n k) =>
@@ -363,7 +370,7 @@ def runUStmt (C : Codecs) (s : UState) : UStmt → Step UState
       | .ok (xs, off) => .next { s with env := s.env.set f (.ns xs), offset := off }
       | .err => .err
       | .panic => .panic
-    | _ => .panic
+    | _ => .stuck
   | .forRangeInt b w e f =>
     match s.env.get f with
     | some (.ns old) =>
@@ -371,7 +378,7 @@ def runUStmt (C : Codecs) (s : UState) : UStmt → Step UState
       | .ok (xs, off) => .next { s with env := s.env.set f (.ns xs), offset := off }
       | .err => .err
       | .panic => .panic
-    | _ => .panic
+    | _ => .stuck
   | .forCountSub b f g typ size =>
     match s.env.get g, s.env.get f with
     | some (.n k), some (.ts old) =>
@@ -379,7 +386,7 @@ def runUStmt (C : Codecs) (s : UState) : UStmt → Step UState
       | .ok (vs, off) => .next { s with env := s.env.set f (.ts vs), offset := off }
       | .err => .err
       | .panic => .panic
-    | _, _ => .panic
+    | _, _ => .stuck
   | .whileFitsSub b f typ size =>
     match s.env.get f with
     | some (.ts old) =>
@@ -387,7 +394,7 @@ def runUStmt (C : Codecs) (s : UState) : UStmt → Step UState
       | .ok (vs, off) => .next { s with env := s.env.set f (.ts vs), offset := off }
       | .err => .err
       | .panic => .panic
-    | _ => .panic
+    | _ => .stuck
   | .cstrUnicode f =>
     match cstrUnicodeAux (s.D.length + 1) s.D 0 [] with
     | .ok (bs, off) => .next { s with env := s.env.set f (.b bs), offset := off }
@@ -406,6 +413,7 @@ def runUStmts (C : Codecs) (s : UState) : List UStmt → Step UState
     | .ret => .ret
     | .err => .err
     | .panic => .panic
+    | .stuck => .stuck
 end
 
 /-- Unmarshal of a command body on the two streams: the environment of field values on success
@@ -422,6 +430,7 @@ def runU (C : Codecs) (c : Cmd) (env0 : Env) (wordCount : Nat) (P D : Bytes) : O
       | .ret => .ok s.env
       | .err => .err
       | .panic => .panic
+      | .stuck => .err      -- unreachable for the environments of real commands; the tie would expose it
   go s0 c.unmarshal
 
 end Manticore.SmbIR
